@@ -6,6 +6,8 @@ import FxVerif.Proofs.C20Msg
 import FxVerif.Gen.C20Msg
 import FxVerif.Proofs.C20Handler
 import FxVerif.Gen.C20Handler
+import FxVerif.Proofs.C20Bech32
+import FxVerif.Gen.C20Bech32
 /-!
 # C20 — hostile input never crashes a node and cannot dodge the minimum fee
 
@@ -888,6 +890,218 @@ example : reachableFrom [(0, [1]), (1, [2])] [0] 2 :=
 example : (hsites.filter fun s => s.fn == fn.«x/crosschain/keeper.Keeper.BridgeCallResultHandler»).all
     (fun s => inSet ungatedReach s.fn && !inSet blockReach s.fn) = true := by decide +kernel
 
+/-! ### gRPC query handlers (round 5): reachability from the Query entry points, what recovers a query, caller-side guards
+
+A query is not run by the transaction runner.  Two transports reach a query method: ABCI `Query` (CometBFT RPC `abci_query`, the
+REST gateway, the node's own clients) and the gRPC server.  Both facts are regenerated from the cosmos-sdk fork in the module
+cache: `BaseApp.Query` installs a deferred `recover()` before it routes; `BaseApp.RegisterGRPCServer` re-registers every method
+with `ChainUnaryServer(recovery.UnaryServerInterceptor(), …)` — without the first, a panic in a gRPC handler goroutine ends the
+PROCESS (grpc-go does not recover).  Beyond containment the inventory shows that hostile requests cannot steer the sites. -/
+
+/-- the regenerated certificate `queryReach` contains every gRPC query method of every fx-core module and is closed under the
+call edges -/
+theorem query_certificate_checks : certifies graph queryRoots queryReach = true := by decide +kernel
+
+/-- **what recovers a query** (regenerated from `baseapp/abci.go` and `baseapp/grpcserver.go` of the module cache): ABCI `Query`
+defers its `recover()` in front of the route to `handleQueryGRPC`; the gRPC server wraps every method handler in a chain whose
+OUTERMOST interceptor is go-grpc-middleware's recovery interceptor (the SDK's context interceptor runs inside it) -/
+theorem query_transports_recover :
+    abciQueryRecoversFirst = true ∧ abciQueryRoutesGrpc = true ∧ grpcChainInHandler = true ∧
+    grpcChain = ["github.com/grpc-ecosystem/go-grpc-middleware/recovery.UnaryServerInterceptor()", "interceptor"] := by decide
+
+/-- functions with an explicit `panic(…)` that a query method can reach, according to the site inventory -/
+def queryPanicFns : List Nat := (qsites.filter (·.isPanic)).map (·.fn)
+
+theorem query_panic_hosts_listed :
+    (panicHosts.filter (inSet queryReach)).all (fun f => queryPanicFns.contains f) = true ∧
+    queryPanicFns.all (fun f => !queryRoots.contains f) = true ∧
+    edgesGuarded graph queryReach qcalls queryPanicFns = true := by decide +kernel
+
+/-- **the panic inventory behind the query entry points is complete** with respect to the regenerated graph: a function of the
+module whose body contains an explicit `panic(…)` and that ANY call path from ANY gRPC query method reaches has its panic in
+`qsites` (so the dispositions below speak about all of them) -/
+theorem query_panic_inventory_complete (f : Nat) (hf : f ∈ panicHosts) (hr : reachableFrom graph queryRoots f) :
+    ∃ s ∈ qsites, s.fn = f ∧ s.isPanic = true := by
+  have hin : inSet queryReach f = true := by
+    cases h : inSet queryReach f
+    · exact absurd hr (certifies_sound graph queryRoots queryReach query_certificate_checks f h)
+    · rfl
+  have h := List.all_eq_true.1 query_panic_hosts_listed.1 f (by simp [List.mem_filter, hf, hin])
+  simp only [queryPanicFns, List.contains_iff_mem, List.mem_map, List.mem_filter] at h
+  obtain ⟨s, ⟨hs, hk⟩, rfl⟩ := h
+  exact ⟨s, hs, rfl, hk⟩
+
+/-- **a hostile request cannot steer an explicit panic behind a query**: whatever the call path from a query method to the
+function that hosts the panic, the LAST call on it is in the regenerated call table and the caller tests the very condition the
+panic sits behind, on the same argument, in a dominating early return (`getQueryServerByChainName`: `if !k.router.HasRoute(chainName)
+{ return nil, error }` in front of `k.router.GetRoute(chainName)`, whose body is `if !rtr.HasRoute(path) { panic(…) }`).  Two
+cooperating sites: dropping the caller's test, or calling the host from a second place without it, breaks this proof.  No query
+method hosts such a panic itself. -/
+theorem query_panic_calls_guarded (s : HSite) (hs : s ∈ qsites) (hk : s.isPanic = true)
+    {r a : Nat} (hr : r ∈ queryRoots) (hra : Reach graph r a) (he : graph.edge a s.fn) :
+    callsGuarded qcalls a s.fn = true ∧ s.fn ∉ queryRoots := by
+  have hm : s.fn ∈ queryPanicFns := by
+    simp only [queryPanicFns, List.mem_map, List.mem_filter]
+    exact ⟨s, ⟨hs, hk⟩, rfl⟩
+  refine ⟨edgesGuarded_sound graph queryRoots queryReach qcalls queryPanicFns query_certificate_checks
+    query_panic_hosts_listed.2.2 hr hra he hm, ?_⟩
+  have h := List.all_eq_true.1 query_panic_hosts_listed.2.1 s.fn hm
+  simpa using h
+
+/-- every `Must…` call behind a query decodes the chain's own state (a store value, a stored record's field): none takes a field
+of the request -/
+theorem query_must_sites_own_state :
+    (qsites.filter (fun s => !s.isPanic)).all (fun s => s.kind == "must" && s.arg != "msg" && s.arg != "none") = true := by
+  decide +kernel
+
+/-- not vacuous: the query side has entry points in the bridge, erc20, gov and migrate modules, a non-trivial reach, the router
+panic with its guarded call, and store-decoding `Must…` sites -/
+theorem query_inventory_has_key_sites :
+    40 ≤ queryRoots.length ∧ 100 ≤ (nodes.filter fun n => inSet queryReach n.id).length ∧
+    qsites.any (fun s => s.fn == fn.«x/crosschain/keeper.router.GetRoute» && s.isPanic && s.conds == ["!rtr.HasRoute(path)"]) = true ∧
+    qcalls.any (fun c => c.callee == fn.«x/crosschain/keeper.router.GetRoute» && c.guard == "HasRoute" && c.guarded) = true ∧
+    10 ≤ (qsites.filter (fun s => !s.isPanic)).length := by decide +kernel
+
+-- the guarded-edge check distinguishes: the same graph with the dominating test missing is rejected, and a second, unrecorded
+-- call of the host is rejected as well
+example : edgesGuarded [(0, [1]), (1, [2])] 0b111 [⟨1, 2, "HasRoute", "x", true⟩] [2] = true := by decide
+example : edgesGuarded [(0, [1]), (1, [2])] 0b111 [⟨1, 2, "HasRoute", "x", false⟩] [2] = false := by decide
+example : edgesGuarded [(0, [1, 2]), (1, [2])] 0b111 [⟨1, 2, "HasRoute", "x", true⟩] [2] = false := by decide
+example : ∃ s ∈ qsites, s.isPanic = true ∧ ∃ r ∈ queryRoots, inSet queryReach s.fn = true ∧ inSet queryReach r = true := by
+  refine ⟨qsites.find? (·.isPanic) |>.get (by decide +kernel), List.mem_of_find?_eq_some (Option.some_get _).symm, ?_⟩
+  decide +kernel
+
+/-- **no optional part of a query request is dereferenced without a nil test** (round 5): gogoproto decodes an absent message-typed
+field (`pagination`, …) to a nil pointer; getter methods are nil-safe, a field selection through the pointer is not.  In every
+function a gRPC query method reaches, every field selection through a pointer-typed field of a `*Query…Request` parameter is
+dominated by a nil test of that pointer.  (On the pinned tree the code uses getters and hands `req.Pagination` on as a whole,
+so the regenerated list is empty; `qreqParams` counts the request parameters that were inspected, and the examples show what
+the check rejects — e.g. a page-size cap `if req.Pagination.Limit > 100 {…}` without a test.) -/
+theorem query_request_pointers_nil_checked : qderefs.all (·.guarded) = true ∧ 40 ≤ qreqParams := by decide
+
+example : ([⟨1, "req.Pagination.Limit", "req.Pagination", false⟩] : List QDeref).all (·.guarded) = false := by decide
+example : ([⟨1, "req.Pagination.Limit", "req.Pagination", true⟩] : List QDeref).all (·.guarded) = true := by decide
+
+/-- **the IBC middleware's callbacks are in the same inventory** (round 5): every `OnRecvPacket` / `OnAcknowledgementPacket` /
+`OnTimeoutPacket` of the fx-core module is a transaction-level root (they run inside `MsgRecvPacket` / `MsgAcknowledgement` /
+`MsgTimeout`, i.e. under the transaction runner), so `handler_panic_contained` and `handler_sites_disposed` speak about every
+explicit panic / `Must…` they reach; none of them is a block hook -/
+theorem ibc_callbacks_are_tx_roots :
+    (nodes.filter (·.kind == "ibc")).all (fun n => txRoots.contains n.id && !blockRoots.contains n.id) = true ∧
+    3 ≤ (nodes.filter (·.kind == "ibc")).length := by decide +kernel
+
 end Handler
+
+/-! ## bech32 decoding behind every Cosmos-address check (round 5): the decoder modelled, its slices in range, its constants regenerated
+
+`Model/C20Bech32.lean` follows `sdk.GetFromBech32 → types/bech32.DecodeAndConvert → btcutil/bech32.Decode(·, 1023) → ConvertBits(·, 5, 8,
+false)` statement by statement; the `bech` driver lines compare its verdict (error class, human-readable part, address bytes) with the
+real decoder on hostile strings.  The theorems hold for EVERY byte string. -/
+section Bech32
+open FxVerif.Model.C20Bech32 FxVerif.Proofs.C20Bech32
+
+/-- the constants of the model are the constants of the code: charset and generator table of btcutil, minimum length of
+`DecodeNoLimit`, the limit the cosmos-sdk fork hands to `Decode`, the separator window and the four slice expressions of
+`DecodeUnsafe`, the printable range of `Normalize`; fx-core's prefix, address length and the two tests of `VerifyAddressFormat` -/
+theorem bech32_constants_as_written :
+    charset = FxVerif.Gen.C20Bech32.charset.toList.map Char.toNat ∧ gen = FxVerif.Gen.C20Bech32.gen ∧
+    (minLen : Int) = FxVerif.Gen.C20Bech32.minLen ∧ (limit : Int) = FxVerif.Gen.C20Bech32.limit ∧
+    FxVerif.Gen.C20Bech32.separatorCond = "one < 1 || one+7 > len(bech)" ∧
+    FxVerif.Gen.C20Bech32.decodeUnsafeSlices = ["bech[:one]", "bech[one+1:]", "decoded[:len(decoded)-6]", "decoded[len(decoded)-6:]"] ∧
+    FxVerif.Gen.C20Bech32.normalizeConds = ["(*bech)[i] < 33 || (*bech)[i] > 126", "hasLower && hasUpper", "hasUpper"] ∧
+    FxVerif.Gen.C20Bech32.addressPrefix = "fx" ∧ FxVerif.Gen.C20Bech32.addrLen = 20 ∧
+    FxVerif.Gen.C20Bech32.verifyAddressConds = ["len(bz) == 0", "len(bz) != AddrLen"] := by decide
+
+/-- **the slices of `DecodeUnsafe` are in range whenever they are reached** — for every byte string: once the separator test
+`one < 1 || one+7 > len(bech)` has passed, `bech[:one]` and `bech[one+1:]` are inside the string, and every result of `toBytes` on
+the data part has at least six elements, so `decoded[:len(decoded)-6]` and `decoded[len(decoded)-6:]` cannot go out of range.
+(With the minimum length 8 in front, `bech[len(bech)-6:]` of the checksum error path is in range as well.) -/
+theorem bech32_slices_in_range (s : List Nat) (one : Nat) (hsep : separator s = .ok one) :
+    one ≤ s.length ∧ one + 1 ≤ s.length ∧ 1 ≤ (s.take one).length ∧
+    ∀ decoded, toBytes (s.drop (one + 1)) = .ok decoded → 6 ≤ decoded.length := by
+  have h := separator_ok s one hsep
+  refine ⟨by omega, by omega, by simp only [List.length_take]; omega, ?_⟩
+  intro decoded hd
+  have := toBytes_length _ decoded hd
+  simp only [List.length_drop] at this
+  omega
+
+/-- **what the decoder accepts** — for every byte string: an accepted string has between 8 and 1023 bytes and a non-empty
+human-readable part, and the address it yields has exactly `⌊5·(len − len(hrp) − 7)/8⌋ ≤ 635` bytes.  Everything else is
+answered with one of eight error classes (the result type has no third alternative). -/
+theorem bech32_accepts_only_wellformed (s hrp bz : List Nat) (h : decodeAndConvert s = .ok (hrp, bz)) :
+    8 ≤ s.length ∧ s.length ≤ 1023 ∧ 1 ≤ hrp.length ∧ bz.length = 5 * (s.length - hrp.length - 7) / 8 ∧ bz.length ≤ 635 := by
+  have h2 := decodeAndConvert_ok_length s hrp bz h
+  have h1 : 8 ≤ s.length ∧ s.length ≤ 1023 := by
+    unfold decodeAndConvert at h
+    split at h
+    · cases h
+    · rename_i hrp' values hd
+      have := decode_ok_spec s hrp' values hd
+      exact ⟨this.1, this.2.1⟩
+  exact ⟨h1.1, h1.2, h2.2.2.1, h2.1, h2.2.1⟩
+
+/-- **an fx address is 20 bytes, so its text has a fixed length**: when `GetFromBech32` + `VerifyAddressFormat` accept a string
+under a prefix, the string has exactly `len(prefix) + 39` bytes (`fx1…`: 41) — length-extension and truncation cannot be accepted -/
+theorem bech32_address_text_length (pfx s : List Nat) (h : addressClass pfx (· == 20) s = "ok") :
+    s.length = pfx.length + 39 := by
+  unfold addressClass at h
+  split at h
+  · exact absurd h (by decide)
+  · split at h
+    · rename_i e _
+      cases e <;> exact absurd h (by decide)
+    · rename_i hrp bz hd
+      split at h
+      · exact absurd h (by decide)
+      · rename_i hp
+        split at h
+        · rename_i hl
+          have h1 := bech32_accepts_only_wellformed s hrp bz hd
+          have h2 := decodeAndConvert_ok_length s hrp bz hd
+          have hh : hrp = pfx := by simpa using hp
+          have hl' : bz.length = 20 := by simpa using hl
+          subst hh
+          omega
+        · exact absurd h (by decide)
+
+/-- `fxtypes.ParseAddress` with its bech32 test instantiated by the decoder model (`bech32.DecodeAndConvert(addr)` succeeds — any
+prefix, no address-length rule: this is what the IBC middleware runs on the `receiver` of an incoming packet): whenever the
+bech32 branch is taken the text has 8..1023 bytes, and the address it yields has at most 635 bytes — so `receiver.String()`
+(bech32 re-encoding, which fails only on 5-bit overflow) cannot be driven out of range by the packet -/
+def bech32Decodes (a : List Char) : Bool := (decodeAndConvert (a.map Char.toNat)).toOption.isSome
+
+theorem parseAddress_bech32_branch_bounded (ck : List Char → Bool) (a : List Char)
+    (h : FxVerif.Model.C20.parseAddress bech32Decodes ck a = .ok false) :
+    8 ≤ a.length ∧ a.length ≤ 1023 ∧
+    ∃ hrp bz, decodeAndConvert (a.map Char.toNat) = .ok (hrp, bz) ∧ bz.length ≤ 635 ∧ 1 ≤ hrp.length := by
+  have hb : bech32Decodes a = true := ((parseAddress_spec bech32Decodes ck a).1).1 h
+  unfold bech32Decodes at hb
+  cases hd : decodeAndConvert (a.map Char.toNat) with
+  | error e => rw [hd] at hb; simp [Except.toOption] at hb
+  | ok r =>
+    obtain ⟨hrp, bz⟩ := r
+    have := bech32_accepts_only_wellformed _ hrp bz hd
+    simp only [List.length_map] at this
+    exact ⟨this.1, this.2.1, hrp, bz, rfl, this.2.2.2.2, this.2.2.1⟩
+
+example : FxVerif.Model.C20.parseAddress bech32Decodes (fun _ => true) "a12uel5l".toList = .ok false := by
+  exact ((parseAddress_spec bech32Decodes (fun _ => true) "a12uel5l".toList).1).2 (by decide +kernel)
+
+-- non-vacuity: an accepted address, and every error class is inhabited (the model is executable)
+example : (decodeAndConvert ("cosmos1qypqxpq9qcrsszg2pvxq6rs0zqg3yyc5lzv7xu".toList.map Char.toNat)).toOption =
+    some ("cosmos".toList.map Char.toNat, (List.range 20).map (· + 1)) := by decide +kernel
+example : addressClass ("cosmos".toList.map Char.toNat) (· == 20) ("cosmos1qypqxpq9qcrsszg2pvxq6rs0zqg3yyc5lzv7xu".toList.map Char.toNat) = "ok" := by
+  decide +kernel
+example : (["", "a1qqqqq", "a b1qqqqqq", "aB1qqqqqq", "aqqqqqqqq", "1qqqqqqq", "a1bqqqqqq", "a1qqqqqqq", "a1q3g6mn3", "a12uel5l"].map
+    fun t => addressClass [97] (· == 20) (t.toList.map Char.toNat)) =
+    ["empty", "too-short", "invalid-char", "mixed-case", "separator", "separator", "non-charset", "checksum", "incomplete-group",
+      "length"] := by
+  decide +kernel
+example : addressClass [97] (· == 20) (List.replicate 1024 113) = "too-long" ∧
+    addressClass [97] (· == 20) (97 :: 49 :: List.replicate 100 113) = "checksum" := by decide +kernel
+example : (separator ("a12uel5l".toList.map Char.toNat)).toOption = some 1 := by decide +kernel
+
+end Bech32
 
 end FxVerif.Props.C20
